@@ -250,6 +250,53 @@ def check(label, m, elabel, e, rng, tier):
     return 1, fails
 
 
+def check_composite(label, m, elabel, e, rng):
+    """composite elements of conforming components: every component of the discrete function is single valued in the sense of ITS element
+    (through the library's one-sided interior facet bases)"""
+    import skfem as fem
+    fails = []
+    with warnings.catch_warnings():
+        warnings.simplefilter("ignore")
+        b0 = fem.InteriorFacetBasis(m, e, side=0, intorder=3)
+        b1 = fem.InteriorFacetBasis(m, e, side=1, intorder=3)
+    if b0.find.size == 0:
+        return 0, fails
+    x = rng.uniform(-1, 1, b0.N)
+    f0, f1 = b0.interpolate(x), b1.interpolate(x)
+    n = np.asarray(b0.normals)
+    for c, (ec, u0, u1) in enumerate(zip(e.elems, f0, f1)):
+        cls = classify(ec)
+        if cls is None:
+            continue
+        dv = np.asarray(u0) - np.asarray(u1)
+        sc = max(1.0, float(np.max(np.abs(np.asarray(u0)))))
+        if cls == "hdiv":
+            j = np.einsum("i...,i...->...", dv, n)
+        elif cls == "hcurl":
+            j = dv - n * np.einsum("i...,i...->...", dv, n)[None]
+        else:
+            j = dv
+        jm = float(np.max(np.abs(j))) if np.size(j) else 0.0
+        if jm > TOL * sc:
+            fails.append("COMPOSITE: component %d (%s, %s) of the discrete function jumps by %.3e (scale %.2e) across interior facets" % (c, type(ec).__name__, cls, jm, sc))
+    return 1, fails
+
+
+def composites_for(m):
+    import skfem as fem
+    k = geom.kind_of(m)
+    if k == "tri":
+        return [("ElementTriP2*ElementTriP1", fem.ElementTriP2() * fem.ElementTriP1()), ("ElementTriRT1*ElementTriN1", fem.ElementTriRT1() * fem.ElementTriN1())]
+    if k == "tet":
+        return [("ElementTetN1*ElementTetRT1", fem.ElementTetN1() * fem.ElementTetRT1()), ("ElementTetCCR*ElementTetP2", fem.ElementTetCCR() * fem.ElementTetP2()),
+                ("ElementVector(ElementTetP2)*ElementTetP1", fem.ElementVector(fem.ElementTetP2()) * fem.ElementTetP1())]
+    if k == "hex":
+        return [("ElementHex2*ElementHexS2", fem.ElementHex2() * fem.ElementHexS2())]
+    if k == "quad":
+        return [("ElementQuad2*ElementQuad1", fem.ElementQuad2() * fem.ElementQuad1())]
+    return []
+
+
 def elements_for(m):
     """[(label, element)] of all exported elements living on the mesh's reference cell (+ vector wrappers of one H1 element)"""
     import skfem.element as E
@@ -406,6 +453,17 @@ def _task(args):
                 out.append(dict(input="%s on %s after use on a mesh with the same vertex array" % (elabel, label), observed=f_,
                                 replay=dict(kind="continuity_case", mesh=label, element=elabel, seed=seed, tier=tier)))
         return label, cases, out
+    if not curved and not label.startswith(("unsorted/", "history/")):
+        for elabel, e in composites_for(m):
+            if only_el and elabel != only_el:
+                continue
+            try:
+                c, fl = check_composite(label, m, elabel, e, rng)
+            except Exception as ex:
+                c, fl = 1, ["exception %s: %s" % (type(ex).__name__, str(ex)[:200])]
+            cases += c
+            for f in fl[:2]:
+                out.append(dict(input="%s on %s" % (elabel, label), observed=f, replay=dict(kind="continuity_case", mesh=label, element=elabel, seed=seed, tier=tier)))
     for elabel, e in elements_for(m):
         if only_el and elabel != only_el:
             continue
